@@ -164,4 +164,18 @@ Proof.
   - intros y. rewrite Tu, Hu. reflexivity.
 Qed.
 
+Theorem collapse_to_midpoint_boundary_wf E n ks l a b b0r b1r c w cnt vid w' cnt' :
+  let A2 := beta w 2 a in let B2 := beta w 2 b in
+  wf2 n w -> l < n ->
+  NoDup [l; a; b; A2; B2] -> ~ In 0 [l; a; b; A2; B2] ->
+  beta w 1 l = a -> beta w 1 a = b -> beta w 1 b = l -> beta w 2 l = 0 ->
+  run E (collapse_edge_to_midpoint n ks b l a b0r 0 b1r) c w cnt = (Done vid, w', cnt') ->
+  wf2 n w'.
+Proof.
+  intros A2 B2 W Hln Hnd Hz B1 B2' B3 Zl Hr.
+  destruct (to_mid_boundary_split _ _ _ _ _ _ _ _ _ _ _ _ _ _ Hr) as (wa & cnta & Eh & Ht).
+  eapply wf2_ext; [|exact Ht].
+  exact (halfcell_to_midpoint_wf E n ks l a b c w cnt wa cnta W Hln Hnd Hz B1 B2' B3 Zl Eh).
+Qed.
+
 End CollapseBase.
